@@ -690,6 +690,9 @@ Proof.
   pose proof (get_eq_spec st recv n HI) as H. simpl in H. rewrite H. reflexivity.
 Qed.
 
+Lemma iter_next_eq_spec : forall st it, Inv st -> s_iter_next sem_mech st it = s_iter_next sem_spec st it.
+Proof. intros st it HI. exact (invoke_eq_spec st it "next" 0 HI). Qed.
+
 Lemma ancestry_dangling : forall h c, wf_hist h -> List.length h <= c -> ancestry h c = [c].
 Proof.
   intros h c Hwf Hc. rewrite ancestry_unfold by auto.
@@ -768,7 +771,8 @@ Theorem sem_ops_agree : forall st, Inv st ->
                                    s_super_invoke sem_mech st c n argc = s_super_invoke sem_spec st c n argc) /\
   (forall r q, s_derives sem_mech st r q = s_derives sem_spec st r q) /\
   s_next_cid sem_mech st = s_next_cid sem_spec st /\
-  (forall r, s_cname sem_mech st r = s_cname sem_spec st r).
+  (forall r, s_cname sem_mech st r = s_cname sem_spec st r) /\
+  (forall it, s_iter_next sem_mech st it = s_iter_next sem_spec st it).
 Proof.
   intros st HI. repeat split; intros.
   - apply get_eq_spec; auto.
@@ -778,6 +782,7 @@ Proof.
   - apply derives_all_eq_spec; auto.
   - apply next_cid_eq_spec; auto.
   - apply cname_eq_spec; auto.
+  - apply iter_next_eq_spec; auto.
 Qed.
 
 Lemma Inv_st0 : Inv st0.
@@ -1363,6 +1368,43 @@ Lemma ev_T1_try : forall S f c body st, ev S (Datatypes.S f) c (T1 (STry body)) 
   end.
 Proof. reflexivity. Qed.
 
+Lemma ev_T1_if : forall S f c cond th el st, ev S (Datatypes.S f) c (T1 (SIf cond th el)) st =
+  bind_val (ev S f c (TE cond) st) (fun v st1 =>
+    match ev S f (ctx_env c (c_env c) true) (TS (if truthy v then th else el)) st1 with
+    | (st2, RNext _) => (st2, RNext (c_env c))
+    | other => other
+    end).
+Proof. reflexivity. Qed.
+Lemma ev_T1_for : forall S f c x e body st, ev S (Datatypes.S f) c (T1 (SFor x e body)) st =
+  bind_val (ev S f c (TE e) st) (fun v st1 =>
+    of_res (s_invoke S st1 v "iter" 0) (fun tg =>
+      bind_val (ev S f c (TEnter tg []) (log_dispatch st1 v "iter" (target_closure tg))) (fun it st2 =>
+        let '(st3, a) := alloc_cell st2 VNil in
+        match ev S f (ctx_env c ((x, a) :: c_env c) true) (TLoop it a body) st3 with
+        | (st4, RNext _) => (st4, RNext (c_env c))
+        | other => other
+        end)) st1).
+Proof. reflexivity. Qed.
+Lemma ev_TLoop : forall S f c it a body st, ev S (Datatypes.S f) c (TLoop it a body) st =
+  of_res (s_iter_next S st it) (fun tg =>
+    bind_val (ev S f c (TEnter tg []) st) (fun r st1 =>
+      if is_stop_iter S st1 r then (st1, RNext (c_env c))
+      else
+        match ev S f (ctx_env c (c_env c) true) (TS body) (set_cells st1 (list_set a r (cells st1))) with
+        | (st3, RNext _) => ev S f c (TLoop it a body) st3
+        | other => other
+        end)) st.
+Proof. reflexivity. Qed.
+
+Lemma is_stop_iter_eq : forall st r, G st -> is_stop_iter sem_mech st r = is_stop_iter sem_spec st r.
+Proof.
+  intros st r [HI _]. unfold is_stop_iter. destruct r; auto. destruct (nth_error (heap st) a); auto.
+  apply derives_all_eq_spec; auto.
+Qed.
+
+Lemma Post_core_base : forall st st' r, core st' = core st -> Post st' r -> Post st r.
+Proof. intros st st' r Hc P. eapply Post_trans; [apply ext_core; exact Hc|exact P]. Qed.
+
 Lemma core_bind_params : forall ps vs st rho, core (fst (bind_params st rho ps vs)) = core st.
 Proof.
   induction ps as [|p pr IH]; intros vs st rho; simpl; auto.
@@ -1396,7 +1438,7 @@ Proof.
               ev sem_mech f c (TEnter tg vs) st1 = ev sem_spec f c (TEnter tg vs) st1 /\
               Post st1 (ev sem_spec f c (TEnter tg vs) st1)).
     { intros tg vs st1 H1 H2. apply IH; simpl; auto. eapply C_ext; eauto. }
-    destruct t as [e|es|s|ss|tg vs].
+    destruct t as [e|es|s|ss|tg vs|it a body].
     + (* expressions *)
       destruct e as [| b | z | s | x | | | e1 n | e1 n args | e1 args | n | n args | a b].
       * split; [reflexivity|apply Post_same; auto].
@@ -1457,7 +1499,7 @@ Proof.
         destruct (IHa r st1 G1 X1) as [E2 P2].
         apply bind_vals_sim; auto. intros vs st2 G2 X2. split; [reflexivity|apply Post_same; auto].
     + (* one statement *)
-      destruct s as [e | e | e | x e | x e | o n e | [e|] | cd | name ps body label | body | body].
+      destruct s as [e | e | e | x e | x e | o n e | [e|] | cd | name ps body label | body | body | cond th el | x e body].
       * (* SPrint *)
         rewrite !ev_T1_print. destruct (IHv e st HG (ext_refl st)) as [E P].
         apply bind_val_sim; auto. intros v st1 G1 X1. rewrite (display_eq st1 v G1).
@@ -1515,6 +1557,40 @@ Proof.
         destruct (IH (ctx_env c (c_env c) true) (TS body) st HG (C_ctx_env _ _ _ _ HC)) as [E [G1 X1]]. rewrite E.
         destruct (ev sem_spec f (ctx_env c (c_env c) true) (TS body) st) as [st1 o1]. simpl in G1, X1.
         split; [reflexivity|]. destruct o1; split; simpl; auto.
+      * (* SIf *)
+        rewrite !ev_T1_if. destruct (IHv cond st HG (ext_refl st)) as [E P].
+        apply bind_val_sim; auto. intros v st1 G1 X1.
+        destruct (IH (ctx_env c (c_env c) true) (TS (if truthy v then th else el)) st1 G1
+                     (C_ctx_env _ _ _ _ (C_ext _ _ _ HC X1))) as [E2 [G2 X2]]. rewrite E2.
+        destruct (ev sem_spec f (ctx_env c (c_env c) true) (TS (if truthy v then th else el)) st1) as [st2 o2].
+        simpl in G2, X2. split; [reflexivity|]. destruct o2; split; auto.
+      * (* SFor *)
+        rewrite !ev_T1_for. destruct (IHv e st HG (ext_refl st)) as [E P].
+        apply bind_val_sim; auto. intros v st1 G1 X1.
+        apply of_res_sim; auto. { apply invoke_eq_spec. apply G1. }
+        intros tg _.
+        assert (K1 : core (log_dispatch st1 v "iter" (target_closure tg)) = core st1) by apply core_log_dispatch.
+        assert (G1' : G (log_dispatch st1 v "iter" (target_closure tg))) by (eapply G_core; eauto).
+        assert (X1' : ext st (log_dispatch st1 v "iter" (target_closure tg))).
+        { eapply ext_trans; [exact X1|apply ext_core; exact K1]. }
+        destruct (IHe tg [] _ G1' X1') as [E2 P2].
+        assert (Hgoal : forall kM kS,
+           (forall it st2, G st2 -> ext (log_dispatch st1 v "iter" (target_closure tg)) st2 ->
+              kM it st2 = kS it st2 /\ Post st2 (kS it st2)) ->
+           bind_val (ev sem_mech f c (TEnter tg []) (log_dispatch st1 v "iter" (target_closure tg))) kM =
+           bind_val (ev sem_spec f c (TEnter tg []) (log_dispatch st1 v "iter" (target_closure tg))) kS /\
+           Post st1 (bind_val (ev sem_spec f c (TEnter tg []) (log_dispatch st1 v "iter" (target_closure tg))) kS)).
+        { intros kM kS Hk. destruct (bind_val_sim _ _ _ kM kS E2 P2 Hk) as [A B]. split; auto.
+          eapply Post_core_base; eauto. }
+        apply Hgoal. intros it st2 G2 X2.
+        assert (G3 : G (set_cells st2 (cells st2 ++ [VNil])%list)) by (eapply G_core; [|exact G2]; reflexivity).
+        assert (HC3 : C (set_cells st2 (cells st2 ++ [VNil])%list) (ctx_env c ((x, List.length (cells st2)) :: c_env c) true)).
+        { apply C_ctx_env. eapply C_ext; [exact HC|]. eapply ext_trans; [exact X1'|exact X2]. }
+        unfold alloc_cell. cbv beta iota zeta.
+        destruct (IH _ (TLoop it (List.length (cells st2)) body) _ G3 HC3) as [E3 [G4 X4]]. rewrite E3.
+        destruct (ev sem_spec f (ctx_env c ((x, List.length (cells st2)) :: c_env c) true)
+                     (TLoop it (List.length (cells st2)) body) (set_cells st2 (cells st2 ++ [VNil])%list)) as [st4 o4].
+        simpl in G4, X4. split; [reflexivity|]. destruct o4; split; auto.
     + (* statement lists *)
       destruct ss as [|s r].
       * split; [reflexivity|apply Post_same; auto].
@@ -1566,6 +1642,23 @@ Proof.
                             match goal with |- Post _ (match ?d with _ => _ end) => destruct d end; apply Post_same; auto).
            rewrite (derives_all_eq_spec st _ c0 (proj1 HG)). split; [reflexivity|apply Post_same; auto].
         -- destruct v; (split; [reflexivity|apply Post_same; auto]).
+    + (* the rounds of a for loop *)
+      rewrite !ev_TLoop. apply of_res_sim; auto. { apply iter_next_eq_spec. apply HG. }
+      intros tg _. destruct (IHe tg [] st HG (ext_refl st)) as [E P].
+      apply bind_val_sim; auto. intros r st1 G1 X1.
+      rewrite (is_stop_iter_eq st1 r G1).
+      destruct (is_stop_iter sem_spec st1 r); [split; [reflexivity|apply Post_same; auto]|].
+      assert (G2 : G (set_cells st1 (list_set a r (cells st1)))) by (eapply G_core; [|exact G1]; reflexivity).
+      assert (HC2 : C (set_cells st1 (list_set a r (cells st1))) (ctx_env c (c_env c) true)).
+      { apply C_ctx_env. eapply C_ext; [exact HC|]. eapply ext_trans; [exact X1|]. apply ext_core. reflexivity. }
+      destruct (IH _ (TS body) _ G2 HC2) as [E2 [G3 X3]]. rewrite E2.
+      destruct (ev sem_spec f (ctx_env c (c_env c) true) (TS body) (set_cells st1 (list_set a r (cells st1)))) as [st3 o3].
+      simpl in G3, X3.
+      destruct o3; try (split; [reflexivity|split; [exact G3|exact X3]]).
+      assert (HC3 : C st3 c).
+      { eapply C_ext; [exact HC|]. eapply ext_trans; [exact X1|exact X3]. }
+      destruct (IH c (TLoop it a body) st3 G3 HC3) as [E3 P3]. split; auto.
+      eapply Post_trans; [exact X3|exact P3].
 Qed.
 
 
@@ -1661,6 +1754,33 @@ Theorem eval_mech_eq_spec_refuted_any_static :
   show_outcome (eval_mech_any_static ex_static_factory) <> show_outcome (eval_spec ex_static_factory) /\
   show_outcome (eval_mech ex_static_factory) = show_outcome (eval_spec ex_static_factory).
 Proof. split; [vm_compute; reflexivity|]. split; [vm_compute; discriminate|vm_compute; reflexivity]. Qed.
+
+(* an iterator whose instance has its own FIELD `next` (a method taken from another instance): every access path -
+   `a.next()`, `var g = a.next; g()`, and the implicit `next` of the for loop (IterNext) - sees the field *)
+Definition ex_iter_field : prog := [
+  SClass (CDecl "Cnt" (Some "Iter") None [
+     MDecl KInit "new" ["t"] [SSetField ESelf "k" (ENum 0); SSetField ESelf "t" (EVar "t")] 1;
+     MDecl KMethod "next" [] [
+        SIf (EEq (EGet ESelf "k") (ENum 0)) [SSetField ESelf "k" (ENum 1); SReturn (Some (EGet ESelf "t"))] [];
+        SReturn (Some (EInvoke (EVar "StopIter") "new" []))] 2] 3);
+  SVar "a" (EInvoke (EVar "Cnt") "new" [EStr "own"]);
+  SSetField (EVar "a") "next" (EGet (EInvoke (EVar "Cnt") "new" [EStr "field"]) "next");
+  SFor "x" (EVar "a") [SPrint (EVar "x")];
+  SVar "b" (EInvoke (EVar "Cnt") "new" [EStr "own"]);
+  SFor "x" (EVar "b") [SPrint (EVar "x")]].
+
+(* the model variant whose IterNext goes straight to the class table (invoke_from_class) does not refine the Spec *)
+Theorem eval_mech_eq_spec_refuted_iter_from_class :
+  show_outcome (eval_spec ex_iter_field) = "field~own#ok" /\
+  show_outcome (eval_mech_iter_from_class ex_iter_field) = "own~own#ok" /\
+  show_outcome (eval_mech ex_iter_field) = show_outcome (eval_spec ex_iter_field).
+Proof. split; [vm_compute; reflexivity|]. split; vm_compute; reflexivity. Qed.
+
+(* the prelude defines the core classes in the order the evaluator relies on *)
+Example prelude_classes :
+  map (fun n => assoc n (globals (fst (eval_mech [])))) ["Error"; "StopIter"; "Iter"; "MapIter"]
+  = [Some (VClass 1); Some (VClass stop_iter_cid); Some (VClass 3); Some (VClass 4)].
+Proof. vm_compute. reflexivity. Qed.
 
 Definition sample_programs : list prog := [
   ex_hier;
@@ -1761,3 +1881,4 @@ Print Assumptions eval_mech_eq_spec.
 Print Assumptions user_override_of_object_method_wins.
 Print Assumptions eval_mech_eq_spec_refuted_old.
 Print Assumptions eval_mech_eq_spec_refuted_any_static.
+Print Assumptions eval_mech_eq_spec_refuted_iter_from_class.
